@@ -18,10 +18,23 @@ FILES = {
     "a.py": "import pickle\npickle.loads(x)\nimport tempfile\nf = '/tmp/x'\ng = '/var/data/x'\n",
     "b.py": "import marshal\nmarshal.loads(y)\nassert y\n",
     "c.py": "import subprocess\nsubprocess.Popen(c, shell=True)\nmyspawn(c)\n",
+    # rules whose documentation links are special-cased (B304/B305, B313-B320), twice each, and nosec comments by rule name
+    "d.py": ("import xml.etree.cElementTree as CET\nimport xml.etree.ElementTree as ET\nCET.fromstring(x)\nET.fromstring(y)\nCET.parse(z)\n"
+             "ET.parse(w)  # nosec xml_bad_ElementTree\nfrom Crypto.Cipher import ARC2\nARC2.new(k)\nARC2.new(j)\n"
+             "import telnetlib  # nosec import_telnetlib\nimport ftplib  # nosec import_telnetlib\n"),
 }
 CONFIGS = [None, {"hardcoded_tmp_directory": {"tmp_dirs": ["/var/data"]}},
            {"shell_injection": {"subprocess": ["myspawn"], "shell": [], "no_shell": []}}]
-SELECTIONS = [None, ["B301"], ["B302"], ["B108", "B602", "B603"]]
+SELECTIONS = [None, ["B301"], ["B302"], ["B108", "B602", "B603"], ["B313", "B314", "B304", "B401", "B402"]]
+
+
+def render(m):
+    """Produce a report from a finished scan (every formatter asks docs_utils for each finding's URL)."""
+    import io
+    import tempfile
+    with tempfile.NamedTemporaryFile("w+", suffix=".json") as f:
+        m.output_results(3, "LOW", "LOW", f, "json", None)
+
 
 
 def key(r):
@@ -35,7 +48,16 @@ def fresh(paths, cfg, sel):
         cf = os.path.join(impl.scratch(), "c08cfg.yaml")
         yaml.safe_dump(cfg, open(cf, "w"))
     m = impl.make_manager(include=sel, config_file=cf)
+    # what this scanner wrote onto the (process-wide) check functions when it was constructed
+    import copy
+    m._verif_snap = {p.name: copy.deepcopy(getattr(p.plugin, "_config", None)) for p in m.b_ts.plugins}
     return m
+
+
+def overwritten(m):
+    """The known mechanism, observed directly: some check function no longer carries the configuration this scanner
+    gave it (a scanner constructed later stored its own)."""
+    return any(getattr(p.plugin, "_config", None) != m._verif_snap.get(p.name) for p in m.b_ts.plugins)
 
 
 def history(R, rng, tier):
@@ -63,14 +85,22 @@ def history(R, rng, tier):
         rng.shuffle(order)
         for j in order:                                                            # ... then run in another order
             mgrs[j].files_list = list(paths)
+            was_overwritten = overwritten(mgrs[j])
             mgrs[j].run_tests()
             got = [key(impl.issue_dict(i)) for i in mgrs[j].results]
-            inp = {"constructed": [{"config": CONFIGS[ci], "tests": SELECTIONS[si]} for ci, si in hist], "run": j}
+            rendered = rng.random() < 0.6
+            if rendered:
+                try:
+                    render(mgrs[j])
+                except Exception as e:      # the formatter closing/consuming the file object is not this property's concern
+                    rendered = "failed: %s" % type(e).__name__
+            inp = {"constructed": [{"config": CONFIGS[ci], "tests": SELECTIONS[si]} for ci, si in hist], "run": j,
+                   "report_rendered_after_this_run": rendered}
             R.case(("hist", tuple(hist), j), nontrivial=len(set(hist)) > 1, sample=dict(inp, findings=len(got)))
             R.count("history")
             if got != ref[hist[j]]:
-                later = hist[j + 1:]
-                sig = "shared-function-config" if any(h != hist[j] for h in later) else None
+                # the known finding, identified by its mechanism: a check function carried another scanner's configuration
+                sig = "shared-function-config" if was_overwritten else None
                 R.violations.append({"what": "a scanner's findings depend on other scanner objects constructed in the same process",
                                      "input": inp, "observed": {"got": got[:6], "alone": ref[hist[j]][:6]}, "signature": sig})
 
@@ -108,8 +138,14 @@ def seeds(R, rng, tier):
     for i, f in enumerate(rng.sample(ex, 10 if tier == "quick" else 40)):
         tgt = os.path.join(d, "pkg", "sub" if i % 2 else "", os.path.basename(f))
         open(tgt, "wb").write(open(f, "rb").read())
+    # nodes on which several checks fire at once: their relative order in the report is the order of the test set
+    open(os.path.join(d, "pkg", "zz_multi.py"), "w").write(
+        "import subprocess, requests, hashlib, os, yaml, pickle\n"
+        "subprocess.Popen('ls -l', shell=True)\nsubprocess.call('ls *', shell=True)\nrequests.get(zz_u, verify=False)\n"
+        "os.system('chmod 777 *')\nos.popen('tar cf x *')\nsubprocess.Popen(['ls'], shell=False)\n"
+        "zz_f('/tmp/zz', password='0.0.0.0')\nos.chmod('/tmp/zz', 0o777)\nhashlib.new('md5', password='x')\n")
     fmts = ["json", "yaml", "csv", "xml", "sarif"]
-    seeds_ = ["0", "1", "2"] if tier == "quick" else ["0", "1", "2", "3", "4", "5", "6", "7"]
+    seeds_ = ["0", "1", "2", "3", "4"] if tier == "quick" else ["0", "1", "2", "3", "4", "5", "6", "7", "8", "9", "10", "11"]
     for fmt in fmts:
         outs = {}
         for s in seeds_:
